@@ -92,13 +92,15 @@ WordOf(l) == UNION {{16 * (k - 1) + i : i \in {b \in 0..15 : (l[k] \div (2 ^ b))
 \* e.op = "step":   e.s, e.out limbs            out = Step(s), and s' = out
 \* e.op = "range":  keys lo <= min, max < hi    (ordered integer keys of f32 / plain i32)
 \* e.op = "bern":   e.p01 in {0, 1}: Bernoulli(p <= 0) / (p >= 1);  e.res
-\* e.op = "norm":   e.n2 = |v|^2 * 2^20 rounded;  e.kind "in" (<= 1) or "on" (= 1)
+\* e.op = "norm":   e.n2 = |v|^2 * 2^20 rounded;  e.kind "in" (<= 1) or "on" (= 1); e.inside = 1 iff len_sqr() <= 1.0 exactly
 \* e.op = "seq":    e.a, e.b: two observation sequences that must be equal
 Allowed(e) ==
   CASE e.op = "step"  -> Step(WordOf(e.s)) = WordOf(e.out) /\ e.after = e.out /\ WordOf(e.out) # {}
     [] e.op = "range" -> e.n > 0 /\ e.lo <= e.min /\ e.max < e.hi /\ e.panic = 0
     [] e.op = "bern"  -> e.res = e.p01
-    [] e.op = "norm"  -> IF e.kind = "in" THEN e.n2 <= 1048576 + 1100 ELSE (e.n2 >= 1048576 - 1100 /\ e.n2 <= 1048576 + 1100)
+    \* inside: len_sqr() <= 1 as the library measures it (exact f32 comparison); unit length is judged at 1e-3
+    [] e.op = "norm"  -> IF e.kind = "in" THEN e.inside = 1 /\ e.n2 <= 1048576 + 1100
+                         ELSE (e.n2 >= 1048576 - 1100 /\ e.n2 <= 1048576 + 1100)
     [] e.op = "seq"   -> e.a = e.b
     [] OTHER -> FALSE
 =============================================================================
